@@ -184,6 +184,13 @@ var (
 	SiteTrace func(kind int, held string, site string)
 
 	uuidCounter uint64
+
+	// OnKill, if set, is called by the controller when the execution proper is
+	// over and the remaining threads are about to be unwound (race reports
+	// produced while unwinding are not attributed to the program).
+	OnKill func()
+	// OnStart, if set, is called by the controller just before thread 0 starts.
+	OnStart func()
 )
 
 // Config of one execution.
@@ -221,9 +228,15 @@ func Run(cfg Config, main func()) *Exec {
 	s.finger = 1469598103934665603
 	setGlobals(s, true)
 	newThread(s, "main", main)
+	if OnStart != nil {
+		OnStart()
+	}
 	start(s)
 	// controller waits until the execution is over
 	spinUntil(s, ctrlID)
+	if OnKill != nil {
+		OnKill()
+	}
 	killAll(s)
 	setGlobals(nil, false)
 	x := &Exec{}
@@ -617,6 +630,19 @@ func curKilled() bool {
 	}
 	id := s.cur
 	return id < 0 || s.threads[id].killed
+}
+
+// SetSequential switches the recording of alternatives off (true) or on (false)
+// for the rest of the execution: while it is off the running thread keeps
+// running and other threads only run when it waits. Drivers use it to run their
+// set-up and final phases unscheduled.
+//
+//go:norace
+func SetSequential(on bool) {
+	if !Controlled {
+		return
+	}
+	S.sequential = on
 }
 
 // Self returns the id of the running thread.
